@@ -203,7 +203,8 @@ def sim_xopen(filename, mode="r", compresslevel=None, threads=None, **kwargs):
         raise OSError(errno.EMFILE, "Too many open files", filename if isinstance(filename, str) else None)
     if filename == "-":
         if "r" in mode:
-            raise io.UnsupportedOperation("reading standard input is not modelled")
+            # what xopen does: a binary stream on sys.stdin's descriptor, compression detected by content
+            return _xopen_mod.xopen("-", mode, threads=0, **kwargs)
         proxy = StdoutBinaryProxy(_STDOUT_BUF)
         return io.TextIOWrapper(proxy, encoding="utf-8") if ("t" in mode or mode == "w") else proxy
     f = _xopen_mod.xopen(filename, mode, compresslevel=compresslevel, threads=0, **kwargs)
